@@ -296,11 +296,13 @@ def call(ex, fr, c, a):
         if f == 'checked_sub': return some(x - y) if x >= y else NONE
         if f == 'pow': return x ** y
         raise Unsupported('usize method ' + f)
-    m = re.fullmatch(r'(?:std|core)::cmp::(min|max)::<(usize|f64)>|<usize as Ord>::(min|max)', c)
+    m = re.fullmatch(r'(?:std|core)::cmp::(min|max)::<(usize|f64)>|<usize as Ord>::(min|max)|(?:std::cmp::|core::cmp::)?Ord::(min|max)', c)
     if m:
-        f = m.group(1) or m.group(3); _note(ex, 'cmp::' + f)
+        f = m.group(1) or m.group(3) or m.group(4); _note(ex, 'cmp::' + f)
         x, y = conc(a[0]), conc(a[1])
-        if is_sym(x) or is_sym(y): raise Unsupported('cmp::%s on symbolic' % f)
+        if is_sym(x) or is_sym(y):
+            x, y = (R(x), R(y)) if (is_float(x) or is_float(y)) else (to_z3(x), to_z3(y))
+            return z3.If(x <= y, x, y) if f == 'min' else z3.If(x >= y, x, y)
         return min(x, y) if f == 'min' else max(x, y)
     m = re.fullmatch(r'(?:std|core)::mem::(replace|swap|take)::<.*>', c)
     if m:
